@@ -447,12 +447,24 @@ func TestTypedGetters(t *testing.T) {
 		ok   string // the literal kinds it must accept
 		get  func(ctx *runtimev2.Task, e *ast.CallExpr) (any, *errchain.PlError)
 	}{
-		{"GetParamInt", "5", func(ctx *runtimev2.Task, e *ast.CallExpr) (any, *errchain.PlError) { return runtimev2.GetParamInt(ctx, e, params, 0) }},
-		{"GetParamFloat", "1.5", func(ctx *runtimev2.Task, e *ast.CallExpr) (any, *errchain.PlError) { return runtimev2.GetParamFloat(ctx, e, params, 0) }},
-		{"GetParamBool", "true", func(ctx *runtimev2.Task, e *ast.CallExpr) (any, *errchain.PlError) { return runtimev2.GetParamBool(ctx, e, params, 0) }},
-		{"GetParamString", `"s"`, func(ctx *runtimev2.Task, e *ast.CallExpr) (any, *errchain.PlError) { return runtimev2.GetParamString(ctx, e, params, 0) }},
-		{"GetParamList", "[1, 2]", func(ctx *runtimev2.Task, e *ast.CallExpr) (any, *errchain.PlError) { return runtimev2.GetParamList(ctx, e, params, 0) }},
-		{"GetParamMap", `{"k": 1}`, func(ctx *runtimev2.Task, e *ast.CallExpr) (any, *errchain.PlError) { return runtimev2.GetParamMap(ctx, e, params, 0) }},
+		{"GetParamInt", "5", func(ctx *runtimev2.Task, e *ast.CallExpr) (any, *errchain.PlError) {
+			return runtimev2.GetParamInt(ctx, e, params, 0)
+		}},
+		{"GetParamFloat", "1.5", func(ctx *runtimev2.Task, e *ast.CallExpr) (any, *errchain.PlError) {
+			return runtimev2.GetParamFloat(ctx, e, params, 0)
+		}},
+		{"GetParamBool", "true", func(ctx *runtimev2.Task, e *ast.CallExpr) (any, *errchain.PlError) {
+			return runtimev2.GetParamBool(ctx, e, params, 0)
+		}},
+		{"GetParamString", `"s"`, func(ctx *runtimev2.Task, e *ast.CallExpr) (any, *errchain.PlError) {
+			return runtimev2.GetParamString(ctx, e, params, 0)
+		}},
+		{"GetParamList", "[1, 2]", func(ctx *runtimev2.Task, e *ast.CallExpr) (any, *errchain.PlError) {
+			return runtimev2.GetParamList(ctx, e, params, 0)
+		}},
+		{"GetParamMap", `{"k": 1}`, func(ctx *runtimev2.Task, e *ast.CallExpr) (any, *errchain.PlError) {
+			return runtimev2.GetParamMap(ctx, e, params, 0)
+		}},
 	}
 	want := map[string]string{"5": "i:5", "1.5": "f:1.5", "true": "b:true", `"s"`: `s:"s"`, "[1, 2]": "[i:1 i:2]", `{"k": 1}`: `{"k":i:1}`}
 	for _, g := range getters {
@@ -461,7 +473,9 @@ func TestTypedGetters(t *testing.T) {
 			var gerr *errchain.PlError
 			g := g
 			fn := &runtimev2.Fn{
-				CallCheck: func(ctx *runtimev2.Task, e *ast.CallExpr) *errchain.PlError { return runtimev2.CheckPassParam(ctx, e, params) },
+				CallCheck: func(ctx *runtimev2.Task, e *ast.CallExpr) *errchain.PlError {
+					return runtimev2.CheckPassParam(ctx, e, params)
+				},
 				Call: func(ctx *runtimev2.Task, e *ast.CallExpr) *errchain.PlError {
 					got, gerr = g.get(ctx, e)
 					return gerr
